@@ -226,6 +226,12 @@ def run_r2(ctx, rule):
                     vals = dict(zip(s["rv"]["fields"], e[3]))
                     ok = vals.get("lit_limit", ("", ""))[0] == "c?" and "MAX_DIMACS" in str(vals.get("lit_limit")) and (vals.get("clause_limit_active") == ("c", 0) or (vals.get("clause_limit", ("",))[0] == "agg" and vals["clause_limit"][2] == "None")) and vals.get("lit_limit_is_hard") == ("c", 1)
                     rule.check(ok, "%s::new/defaults" % m, "%s: without header limits the literal limit is L::MAX_DIMACS (hard) and no clause limit is active" % m, f.loc())
+                    if m == "gcnf":
+                        # groups are plain usize numbers, independent of the literal type: without a declared group count
+                        # every group the text can spell is allowed (a limit taken from the literal type rejects what
+                        # the writer emits for small literal types)
+                        gl = vals.get("group_limit")
+                        rule.check(gl is not None and gl[0] == "c" and isinstance(gl[1], int) and gl[1] >= (1 << 63), "gcnf::new/group-default", "gcnf: without a declared group count the group limit is usize::MAX, whatever the literal type  [got %s]" % (sy.show(gl) if gl else "?"), f.loc())
 
 
 def run_r3(ctx, rule):
